@@ -43,6 +43,7 @@ var (
 		return out
 	}()
 	baseTime = time.Date(2024, 3, 1, 12, 0, 0, 0, time.UTC)
+	wallNow  int64 // -now-unix: real time at generation (0 = not given; the log then depends on the seed only)
 )
 
 type fullGen struct {
@@ -206,10 +207,6 @@ func (g *fullGen) next() []Entry {
 }
 
 // ---------------------------------------------------------------- state lookups
-
-func (g *fullGen) st() *stateView { return &stateView{g} }
-
-type stateView struct{ g *fullGen }
 
 func (g *fullGen) existingNodes() []string {
 	_, ns, _ := g.r.store().Nodes(nil, nil, "")
@@ -646,12 +643,15 @@ func genTxnFull(g *fullGen) *built {
 
 // ---------------------------------------------------------------- history driver
 
-func (g *fullGen) apply(es []Entry) {
+// apply runs the entries on the generator's own FSM; false when the FSM panicked (which every replica
+// will do too: the history ends there)
+func (g *fullGen) apply(es []Entry) bool {
 	for i := range es {
 		if _, pan := g.r.applyEntry(&es[i]); pan != "" {
-			panic("generator produced an entry the FSM cannot decode: " + es[i].Kind + ": " + pan)
+			return false
 		}
 	}
+	return true
 }
 
 func sysmeta(idx uint64, key, val string) Entry {
@@ -738,8 +738,22 @@ func generate(seed int64, tier string, n int, emit func(interface{})) {
 		h.Entries = append(h.Entries, pre...)
 		for k, ln := 0, 5+rng.Intn(36); k < ln; k++ {
 			es := g.next()
-			g.apply(es)
+			alive := g.apply(es)
 			h.Entries = append(h.Entries, es...)
+			if !alive {
+				break
+			}
+		}
+		if g.chance(15) && len(h.Entries) > 0 {
+			// malformed stream: an entry cut short.  FSM.Apply panics on undecodable entries by design
+			// ("so that we crash and our state doesn't diverge"); the history ends there on every replica
+			last := h.Entries[len(h.Entries)-1]
+			if raw, err := hex.DecodeString(last.Data); err == nil && len(raw) > 6 && last.Ext == "" {
+				g.idx++
+				cut := Entry{Idx: g.idx, Kind: "malformed:truncated", Type: last.Type, Data: hex.EncodeToString(raw[:2+g.rng.Intn(len(raw)-3)])}
+				g.apply([]Entry{cut})
+				h.Entries = append(h.Entries, cut)
+			}
 		}
 		r.close()
 		emit(h)
